@@ -28,6 +28,9 @@ from pyvc.interp import Interp  # noqa
 from pyvc.values import Unsupported  # noqa
 
 REPO = os.environ.get("PYVC_REPO", "/repo")
+# where evidence / replay files go: /verif for the registered commands (which read /repo); a run against a scratch copy of
+# the repository (PYVC_REPO: seeded changes, development) must never overwrite the evidence of the real tree
+OUT = os.environ.get("PYVC_OUT") or (VERIF if "PYVC_REPO" not in os.environ else os.path.join("/tmp", "pyvc-out", re.sub(r"[^A-Za-z0-9_.-]", "_", os.environ["PYVC_REPO"])))
 REPO_SRC = os.path.join(REPO, "src")
 NATIVE_PY = os.environ.get("PYVC_NATIVE_PY", "/venv/bin/python")
 
@@ -261,11 +264,11 @@ def run_selftest(prop, results, seed):
             cand.append((r, w))
     rnd.shuffle(cand)
     cand = cand[:48]
-    os.makedirs(os.path.join(VERIF, "replays", "selftest"), exist_ok=True)
+    os.makedirs(os.path.join(OUT, "replays", "selftest"), exist_ok=True)
 
     def one(item):
         r, w = item
-        rp = os.path.join(VERIF, "replays", "selftest", "%s_%s_%d.json" % (prop, re.sub(r"[^A-Za-z0-9_.-]", "_", r["harness"]), abs(hash(json.dumps(w["model"], sort_keys=True, default=str))) % 100000))
+        rp = os.path.join(OUT, "replays", "selftest", "%s_%s_%d.json" % (prop, re.sub(r"[^A-Za-z0-9_.-]", "_", r["harness"]), abs(hash(json.dumps(w["model"], sort_keys=True, default=str))) % 100000))
         doc = {"property": prop, "harness": r["base_harness"], "case": r["case"], "cases": r.get("cases_fn"), "sidecar": r["module_file"],
                "sidecars": r.get("sidecars", []), "obligation_name": None, "model": w["model"], "uses": r["uses"], "loops": [], "kind": "selftest"}
         json.dump(doc, open(rp, "w"), default=str)
@@ -303,8 +306,8 @@ def scan_assumes(prop):
 def report(prop, spec, args, seed, results, extra, t0):
     known = [k for k in load_known() if k.get("property") == prop and k.get("status", "open") == "open"]
     known_ids = {k["id"] for k in known}
-    os.makedirs(os.path.join(VERIF, "replays"), exist_ok=True)
-    os.makedirs(os.path.join(VERIF, "evidence"), exist_ok=True)
+    os.makedirs(os.path.join(OUT, "replays"), exist_ok=True)
+    os.makedirs(os.path.join(OUT, "evidence"), exist_ok=True)
     n_ob = n_dis = 0
     violations = []
     undecided = []
@@ -367,7 +370,7 @@ def report(prop, spec, args, seed, results, extra, t0):
             if f["status"] == "unknown":
                 undecided.append("%s: solver returned unknown (%s)" % (full, f["detail"]))
                 continue
-            rp = os.path.join(VERIF, "replays", "%s_%s_%s.json" % (prop, r["harness"], re.sub(r"[^A-Za-z0-9_.-]", "_", f["name"])))
+            rp = os.path.join(OUT, "replays", "%s_%s_%s.json" % (prop, r["harness"], re.sub(r"[^A-Za-z0-9_.-]", "_", f["name"])))
             doc = {"property": prop, "harness": r["base_harness"], "case": r["case"], "cases": r.get("cases_fn"), "sidecar": r["module_file"], "sidecars": r.get("sidecars", []), "obligation": full,
                    "obligation_name": f["name"], "model": f["model"], "uses": r["uses"], "loops": r["loops"],
                    "solver": f["solver"], "solver_output": f["detail"], "location": f["loc"], "kind": "harness",
@@ -419,7 +422,7 @@ def report(prop, spec, args, seed, results, extra, t0):
             if o["status"] == "unknown":
                 undecided.append("%s: %s" % (full, o.get("detail", "")))
                 continue
-            rp = os.path.join(VERIF, "replays", "%s_%s_%s.json" % (prop, g["name"], re.sub(r"[^A-Za-z0-9_.-]", "_", o["name"])[:80]))
+            rp = os.path.join(OUT, "replays", "%s_%s_%s.json" % (prop, g["name"], re.sub(r"[^A-Za-z0-9_.-]", "_", o["name"])[:80]))
             doc = {"property": prop, "obligation": full, "kind": "ground", "witness": o.get("witness"), "detail": o.get("detail"),
                    "native_demo": o.get("native_demo")}
             confirmed = bool(o.get("confirmed"))
@@ -488,7 +491,7 @@ def report(prop, spec, args, seed, results, extra, t0):
         "assumptions": spec.get("assumptions", []) + assumed + ["sidecar assume(): " + a for a in scan_assumes(prop)] + DROPPED,
         "wall_s": round(wall, 2), "violations": len(violations) + len(more_failed),
     }
-    json.dump(ev, open(os.path.join(VERIF, "evidence", "%s.json" % prop), "w"), indent=1, default=str)
+    json.dump(ev, open(os.path.join(OUT, "evidence", "%s.json" % prop), "w"), indent=1, default=str)
     print("%s: %d/%d obligations discharged (%d VCs, %d harnesses, %.1fs wall, %.1fs solver) -> exit %d" % (
         prop, n_dis, n_ob, vcs, len(results), wall, solver_time, status))
     return status
